@@ -644,6 +644,27 @@ fn bodies_of(file: &str, name: &str, f: &syn::File) -> R<MacroBodies> {
     Ok(out)
 }
 
+/// for Inventory.lean's `MacroImpl.shape`: which trait methods of a macro compare / hash the SHA-256 digests of the wrapped
+/// values, judged on the normalised terms (lets inlined, `self.secret()` read as `self.0`)
+pub fn digest_shapes(file: &str, name: &str, f: &syn::File) -> BTreeMap<String, String> {
+    let mut out = BTreeMap::new();
+    if let Ok(b) = bodies_of(file, name, f) {
+        let own = |t: &Tm, who: &Tm| matches!(t, Tm::Digest(x) if matches!(&**x, Tm::Proj(y, 0) if **y == *who));
+        for m in &b.methods {
+            match (&m.name[..], &m.body) {
+                ("PartialEq::eq", Tm::Eq(a, c)) if (own(a, &Tm::SelfVal) && own(c, &Tm::OtherVal)) || (own(a, &Tm::OtherVal) && own(c, &Tm::SelfVal)) => {
+                    out.insert("PartialEq".to_string(), "sha256-digest-eq".to_string());
+                }
+                ("Hash::hash", Tm::HashInto(a)) if own(a, &Tm::SelfVal) => {
+                    out.insert("Hash".to_string(), "sha256-digest-hash".to_string());
+                }
+                _ => {}
+            }
+        }
+    }
+    out
+}
+
 pub fn extract(srcs: &Sources) -> R<String> {
     let file = "types.rs";
     let f = srcs.get(file)?;
